@@ -64,7 +64,7 @@ CHECKS = {
     ),
     "C13": dict(
         category="proof",
-        text="Lean 4 theorems (C13.*). By decide over tables regenerated from source: the Elegant/Bmad element-type dispatch tables (type -> class, keyword -> expression, understood properties) equal the reviewed tables (incl. the Elegant phase - 90 convention); both converters run exactly the modelled continuation passes. By induction over all line lists (model CheetahModel/Text.lean of fortran_namelist.py / rpn.py): continuation merging glues consecutive blocks in file order, only where the text ends with the mark, resolves every continuation, keeps the character stream (kept mark) or removes exactly one mark per absorbed line (removed mark), never grows; cleaned lines carry no comment, blank line, surrounding blank or upper case; RPN 'a b op' is evaluated as 'a op b'. Tie: the real read_clean_lines / merge_delimiter_continued_lines / rpn functions vs the model on cleaned and raw random lines (driver op txt). Falsifier: random abstract lattices (variables, expressions, inheritance, later assignments, nested lines) rendered in many spellings, imported and compared with an independent reference denotation; NX-table layouts vs tabulated positions.",
+        text="Lean 4 theorems (C13.*). By decide over tables regenerated from source: the Elegant/Bmad element-type dispatch tables (type -> class, keyword -> expression, understood properties) equal the reviewed tables (incl. the Elegant phase - 90 convention); both converters run exactly the modelled continuation passes. By induction over all line lists (model CheetahModel/Text.lean of fortran_namelist.py / rpn.py): continuation merging glues consecutive blocks in file order, only where the text ends with the mark, resolves every continuation, keeps the character stream (kept mark) or removes exactly one mark per absorbed line (removed mark), never grows; cleaned lines carry no comment, blank line, surrounding blank or upper case; RPN 'a b op' is evaluated as 'a op b'; NX tables (model CheetahModel/Nx.lean of the drift filling): every accepted table puts each element's centre at its tabulated position and the importer accepts exactly the tables without overlap. Tie: imported NX layouts vs the model item by item (driver op nxfill); the real read_clean_lines / merge_delimiter_continued_lines / rpn functions vs the model on cleaned and raw random lines (driver op txt). Falsifier: random abstract lattices (variables, expressions, inheritance, later assignments, nested lines) rendered in many spellings, imported and compared with an independent reference denotation; NX-table layouts vs tabulated positions.",
         design="§5 C13",
         note='Trusted: Lean 4.33 kernel, Mathlib; axioms propext/Classical.choice/Quot.sound only (audited each run); instance Scalar ℝ; real-number semantics (round-off outside the theorems, covered by double-vs-double correspondence); harness generators; partial: the statement-level regex chain, eval, inheritance and line expansion are covered differentially only.',
         technique='Lean 4 induction over a line-level model of the import front end (tied by correspondence) + decide over translator-regenerated tables + differential import falsifier',
